@@ -11,7 +11,7 @@ META = {
                   'transfers nothing, returns 0 / zero-fills, and so does every later item (sticky), while cursor+size = n transfers; consumed = sum of all requested sizes and remaining = n - that sum '
                   '(negative exactly after overflow) whenever they fit an int; items that fit are laid out back to back, byte i of an le item = bits 8i..8i+7 (reversed for be); unpacking what was packed '
                   'returns the original value for all 2^16 / 2^32 values; NULL source packs zeros, NULL destination only skips.',
-    'level_note': 'Tie T2 (DESIGN 12): all 15 functions pack.c defines are regenerated from the source each run and proved equal to Model.Pack (cursor advance, fits test, byte order and promotions on all values, returned scalars, consumed/remaining) under base/size/cur without address wrap (Props/C12Tie.lean; rf_pack_bytes/rf_unpack_bytes at the bit-vector layer only). Trusted: Lean kernel (standard axioms; the bit-level byte-order lemmas additionally use bv_decide certificates, listed in trusted_base); the hand model of pack.c, validated on every run against '
+    'level_note': 'Tie T2 (DESIGN 12): all 15 functions pack.c defines are regenerated from the source each run and proved equal to Model.Pack (cursor advance, fits test, byte order and promotions on all values, returned scalars, consumed/remaining) under base/size/cur without address wrap (Props/C12Tie.lean; incl. rf_pack_bytes and rf_unpack_bytes: memcpy, memset, NULL source, NULL destination). Trusted: Lean kernel (standard axioms; the bit-level byte-order lemmas additionally use bv_decide certificates, listed in trusted_base); the hand model of pack.c, validated on every run against '
                   'the real code (every (size, crossing position) for sizes 0..40, every single-byte value pattern; all 2^16 values in the thorough tier); memcpy/memset are libc and modelled as byte copies; '
                   'pointer arithmetic past the end of the buffer is modelled as an unbounded offset (LP64, fewer than 2^31 requested bytes).',
     'design_ref': '§6 C12',
